@@ -5,7 +5,6 @@ package main
 
 import (
 	"math"
-	"strings"
 )
 
 func elemVals(o OSpec) []float64 {
@@ -106,9 +105,8 @@ func classify(c PCase, g, k Result, class int) string {
 	site := c.Kind + "." + c.G + "/" + c.C
 	ec := elemClass(c.Type)
 	switch {
-	case site == "scalar.Abs/ABS":
-		// ABS tests the sign of the receiver's old value and has no case for a zero operand
-		return "F-C09-ABS"
+	// scalar.Abs/ABS: F-C09-ABS was fixed by 2fc8894 (ABS switches on the argument's sign, with the Reset case): any
+	// difference there is a violation again
 	case site == "scalar.Sqrt/SQRT" && ec == "float":
 		if x, ok := scalarArg(c, 0); ok && ((x == 0 && math.Signbit(x)) || math.IsInf(x, -1)) {
 			return "F-C09-SQRT-BARE"
@@ -128,9 +126,7 @@ func classify(c PCase, g, k Result, class int) string {
 	}
 	if c.Kind == "svec" && in(c.G, "VaddV", "VsubV", "VmulV", "VmulS", "VdivS", "Set") {
 		if ec == "real" {
-			if k.Panic && !g.Panic && strings.Contains(k.Msg, "index out of range") {
-				return "F-C09-ABSENT-SETORD"
-			}
+			// F-C09-ABSENT-SETORD (SET of a lower-order receiver element panicked) is gone with d9fca78
 			if !k.Panic && !g.Panic {
 				switch cmpToksM(g.all(), k.all(), true) {
 				case 0:
